@@ -20,7 +20,7 @@ ORACLE = ('harness-computed from fetch_table(_grist_Tables/_grist_Tables_column)
 ASSUMPTIONS = ['metadata rows are only added through user actions (AddTable/AddColumn...), updates/removals also through records',
                'faults are raised at doc-action boundaries and at rebuild_usercode entry (DESIGN.md C04 fault model)']
 BUDGET = {'quick': dict(examples=1300, shards=16, max_seconds=75),
-          'thorough': dict(examples=20000, shards=16, max_seconds=1800)}
+          'thorough': dict(examples=4000, shards=16, max_seconds=1800)}
 SHRINK_BUDGET = {'quick': 60, 'thorough': 400}
 
 
